@@ -585,6 +585,45 @@ TRUSTED = [
 ]
 
 
+def _killed(v):
+    """the violation was produced by a coqc / coqchk process that was killed (no compiler output; SIGKILL from the
+    kernel's OOM killer on the shared machine): that says nothing about the property"""
+    import json
+    try:
+        r = json.load(open(v["replay"]))
+    except Exception:  # noqa
+        return False
+    if r.get("kind") == "case-file":
+        return str(r.get("error", "")).strip().endswith(".v:")
+    if r.get("kind") == "coqchk":
+        return r.get("returncode") in (-9, 137) and not str(r.get("log_tail", "")).strip()
+    if r.get("kind") == "assumptions":
+        bad = r.get("bad") or []
+        return bool(bad) and all(b[0] == "<compile>" and "Error" not in str(b[1]) for b in bad)
+    return False
+
+
+def retry_if_killed(ctx, step, what, attempts=3):
+    """run step() (which may report violations); when ALL violations it reported stem from killed Coq processes,
+    undo its bookkeeping and run it again (at most `attempts` times in total).  A real failure is never retried."""
+    import time
+    for k in range(attempts):
+        snap = (len(ctx.violations), len(ctx.obligations), len(ctx.notes), len(ctx.assumptions_txt), len(ctx.checker_cmds))
+        res = step()
+        new = ctx.violations[snap[0]:]
+        if not new or k == attempts - 1 or not all(_killed(v) for v in new):
+            return res
+        for v in new:
+            try:
+                os.remove(v["replay"])
+            except OSError:
+                pass
+        del ctx.violations[snap[0]:], ctx.obligations[snap[1]:], ctx.notes[snap[2]:]
+        del ctx.assumptions_txt[snap[3]:], ctx.checker_cmds[snap[4]:]
+        ctx.count("retry:%s:coq-process-killed" % what)
+        time.sleep(10)
+
+
 def tag_classes(ctx):
     """one VIOLATION line per class of failing call (ctx.finish prints one line per distinct text)"""
     import json
@@ -639,7 +678,8 @@ def run(ctx, replay=None):
                                            "esutil/coords.py; theorems C08_source_is_model, C08_source_exact"},
                       found_input=False)
     # 2. theorems
-    proofs_ok = core.proof_step(ctx, "C08", core.ALLOW_INTERVAL, extra_targets=["theories/C08/ExecF.vo"])
+    proofs_ok = retry_if_killed(ctx, lambda: core.proof_step(ctx, "C08", core.ALLOW_INTERVAL,
+                                                             extra_targets=["theories/C08/ExecF.vo"]), "proof-step")
     if proofs_ok and gen_ok:
         c08_translate.remember_good(core.COQDIR)
     if not proofs_ok:
@@ -663,7 +703,11 @@ def run(ctx, replay=None):
         tag_classes(ctx)
         return
     # 4. exact-rational checks on every call
-    differential(ctx, PRE_Q, entries, replay)
+    for ent in entries:          # one entry at a time: a case file whose coqc was killed leaves nothing counted
+        def one(ent=ent):
+            ent.results = []
+            differential(ctx, PRE_Q, [ent], replay)
+        retry_if_killed(ctx, one, "case-files-" + ent.name)
     tag_classes(ctx)
     if replay is not None:
         return
